@@ -72,7 +72,7 @@ func countPlan(tier string) Plan {
 func cfgC04(tier string) e1Cfg {
 	t := baseTxn()
 	t.PDelete, t.InsertAllPct = 22, 30
-	return e1Cfg{Prop: "C04", Kinds: append(append([]Kind{}, numericKinds...), KBool, KString, KEnum, KRecord), KeyedPct: 10, LayoutPct: 55,
+	return e1Cfg{Prop: "C04", Kinds: append(append([]Kind{}, numericKinds...), KBool, KString, KEnum, KRecord, KInt64, KUint64), KeyedPct: 10, LayoutPct: 55,
 		LateKinds: append(append([]Kind{}, numericKinds...), KBool, KString, KEnum), PNewCol: 2,
 		Steps: steps(tier, 130, 420), Pool: "agg", NIdx: 4, PIdxChg: 3, PFilter: 55, Txn: t, DumpEvery: 1, Oracles: oracleSet("filter", "index"), PDelAll: 4}
 }
